@@ -9,7 +9,6 @@ import (
 	"fmt"
 	"io"
 	"math/rand/v2"
-	"sync/atomic"
 	"testing"
 	"time"
 
@@ -64,13 +63,13 @@ func drawKind(rt *rapid.T, label string) string {
 
 // inconclusive marks a case whose liveness wait expired: never a violation, never a silent pass.
 func inconclusive(rt *rapid.T, rec *ev.Rec, why string) {
-	n := inconcN.Add(1)
-	rec.Note("inconclusive_cases", fmt.Sprint(n))
 	rec.Note("inconclusive_last", why)
+	n := inconcN.Hit(why, func() { rec.Note("inconclusive_bailout", why); rec.Write() })
+	rec.Note("inconclusive_cases", fmt.Sprint(n))
 	rt.Skip("INCONCLUSIVE: " + why)
 }
 
-var inconcN atomic.Int64
+var inconcN p2psim.Inconclusive
 
 // TestC17Stream: (i) stream integrity. A generated interleaving of writes (both directions) and
 // reads with generated buffer sizes over a session established by the real NewHandshake; every
